@@ -26,16 +26,41 @@ EXPLANATION = (
 FORMS = {"Scalar": "S", "Range": "R", "All": "A"}
 
 
+def private_helper_bodies(F, crate, mod, node, depth=2):
+    """bodies of the private functions of module `mod` that `node` calls (transitively, `depth` levels): a refactoring that extracts part of a
+    function into a private helper of the same file moves the mechanism there, and a rule that reads the function must read the helper as its body"""
+    by_name = {}
+    for it in F.syn(crate):
+        if it["k"] == "fn" and it["mod"] == mod and it.get("body") and it.get("vis", "") != "pub":
+            by_name.setdefault(it["name"], []).append(it)
+    out, seen, todo = [], set(), [(node, 0)]
+    while todo:
+        nd, d = todo.pop(0)
+        if d >= depth:
+            continue
+        for c in find(nd, "call"):
+            pth = path_of(c[1])
+            hs = by_name.get(last_seg(pth), ()) if pth else ()
+            if len(hs) == 1 and id(hs[0]) not in seen:
+                seen.add(id(hs[0]))
+                out.append(hs[0]["body"])
+                todo.append((hs[0]["body"], d + 1))
+    return out
+
+
 def routing(F, fn_name="subscript", mod_suffix="expressions"):
-    """(slot forms) -> native compiler names, from the Bracket arm of subscript() / subscript_ref() / <op>_assign()"""
+    """(slot forms) -> native compiler names, from the Bracket arm of subscript() / subscript_ref() / <op>_assign().  The arm (or part of it) may live in
+    private helpers of the same module: their bodies are read together with the arm."""
     out = []
-    for it in F.syn("mech_interpreter.lib"):
+    crate = "mech_interpreter.lib"
+    for it in F.syn(crate):
         if it["k"] == "fn" and it["name"] == fn_name and it["mod"].endswith(mod_suffix):
             bracket_bodies = []
             for m0 in find(it["body"], "match"):
                 for a0 in m0[2]:
                     if a0[0][0] == "pts" and a0[0][1] == "Subscript::Bracket":
                         bracket_bodies.append(a0[2])
+                        bracket_bodies += private_helper_bodies(F, crate, it["mod"], a0[2])
             for m in (mm for bb in bracket_bodies for mm in find(bb, "match")):
                 for arm in m[2]:
                     p = arm[0]
@@ -50,7 +75,9 @@ def routing(F, fn_name="subscript", mod_suffix="expressions"):
                         else:
                             slots.append("?")
                     # direct compile calls in this arm, with the shape pattern of an inner match if any
-                    inner = [im for im in find(arm[2], "match")]
+                    arm_bodies = [arm[2]] + private_helper_bodies(F, crate, it["mod"], arm[2])
+                    inner = [im for ab in arm_bodies for im in find(ab, "match")]
+                    inner = [im for im in inner if any(mc[2] == "compile" and is_node(mc[1]) and mc[1][0] == "struct" for ia in im[2] for mc in find(ia[2], "mcall"))]
                     if inner:
                         for im in inner:
                             for ia in im[2]:
@@ -59,7 +86,7 @@ def routing(F, fn_name="subscript", mod_suffix="expressions"):
                                     if mc[2] == "compile" and is_node(mc[1]) and mc[1][0] == "struct":
                                         out.append((tuple(slots), shp, mc[1][1], ia[3]))
                     else:
-                        for mc in find(arm[2], "mcall"):
+                        for mc in (x for ab in arm_bodies for x in find(ab, "mcall")):
                             if mc[2] == "compile" and is_node(mc[1]) and mc[1][0] == "struct":
                                 out.append((tuple(slots), None, mc[1][1], arm[3]))
     return out
@@ -461,6 +488,9 @@ def run(F, rep, tier):
                 two_d = len(slots) == 2
                 exp = [dim(sl, i, two_d) for i, sl in enumerate(slots)]
                 kind, args = ctor
+                # a size passed through a named local (`let n = ix.len(); from_element(n, ..)`) is the expression the local was bound to
+                for _ in range(3):
+                    args = [locals_[a] if (a in locals_ and not any(a in ex for ex in exp)) else a for a in args]
                 n_arms += 1
                 why = None
                 if two_d:
